@@ -514,7 +514,7 @@ func unionProps(a, b []string) []string {
 
 // atCallAsserts: "at call NAME[#k] assert P" clauses of the top-level contract.
 func (x *Exec) atCallAsserts(c *callCtx, callee *ssa.Function) bool {
-	return x.atAsserts(c.fr, c.n, c.st, "call", []string{callee.Name(), funcKey(callee)}, c.instr, c.typedArgs()...)
+	return x.atAsserts(c.fr, c.n, c.st, "call", calleeNames(callee), c.instr, c.typedArgs()...)
 }
 
 // atAsserts places the contract's "at <where> <target>[#k] assert P" clauses before the instruction.
@@ -735,7 +735,7 @@ func (x *Exec) siteOrdinal(fr *Frame, target string, instr ssa.Instruction) int 
 				var names []string
 				com := ci.Common()
 				if callee := com.StaticCallee(); callee != nil {
-					names = []string{callee.Name(), funcKey(callee)}
+					names = calleeNames(callee)
 				} else if com.IsInvoke() {
 					names = []string{com.Method.Name(), typeKeyShort(com.Value.Type()) + "." + com.Method.Name()}
 				} else if b, isB := com.Value.(*ssa.Builtin); isB {
